@@ -5,7 +5,8 @@
 # /repo is always reverted. Takes ~1 min per seed.
 set -u
 cd /verif
-OUT=seeded/LAST_RUN.md
+# a run over a subset (pattern given) goes to its own file: the full table is assembled by hand from complete runs
+if [ -n "${1:-}" ]; then OUT=/tmp/LAST_RUN.partial.md; else OUT=seeded/LAST_RUN.md; fi
 echo "# Last run of all seeded changes ($(date -u +%Y-%m-%dT%H:%MZ), /repo $(git -C /repo rev-parse --short HEAD), /verif $(git rev-parse --short HEAD))" > $OUT
 echo >> $OUT
 echo "| seed | check | exit | signatures |" >> $OUT
